@@ -85,6 +85,24 @@ def unlex(t, s):
     return s
 
 
+def declared_members(t):
+    """(declaring class, name, type) for every member, ancestors first: an inherited member lives in the namespace
+    of the class that declares it (XSD extension)."""
+    chain = []
+    k = t
+    while k is not None and issubclass(k, ComplexModelBase) and hasattr(k, '_type_info'):
+        chain.append(k)
+        k = getattr(k, '__extends__', None)
+    out = []
+    seen = set()
+    for klass in reversed(chain):
+        for name, ft in klass._type_info.items():
+            if name not in seen:
+                seen.add(name)
+                out.append((klass, name, ft))
+    return out
+
+
 def tag(ns, name):
     return '{%s}%s' % (ns, name) if ns else name
 
@@ -122,8 +140,8 @@ def _encode_one(parent, t, v, name, ns):
             else:
                 _encode_one(e, itype, item, iname, ns)
     elif issubclass(t, ComplexModelBase):
-        for k, ft in t.get_flat_type_info(t).items():
-            encode_into(e, ft, getattr(v, k, None), k, t.get_namespace())
+        for owner, k, ft in declared_members(t):
+            encode_into(e, ft, getattr(v, k, None), k, owner.get_namespace())
     else:
         e.text = lex(t, v)
 
@@ -150,10 +168,10 @@ def _decode_one(e, t):
         return [_decode_one(c, itype) for c in e if isinstance(c.tag, str)]
     if issubclass(t, ComplexModelBase):
         out = {}
-        for k, ft in t.get_flat_type_info(t).items():
-            out[k] = decode_from(e, ft, k, t.get_namespace())
+        for owner, k, ft in declared_members(t):
+            out[k] = decode_from(e, ft, k, owner.get_namespace())
         return out
-    return unlex(t, e.text)
+    return unlex(t, ''.join(e.itertext()) if len(e) == 0 or all(not isinstance(ch.tag, str) for ch in e) else e.text)
 
 
 def norm(t, v):
